@@ -70,6 +70,16 @@ prop("C14",
       "complex and boolean raw types under scaling", "raw_timestamps=True (exempt by the property)"],
      COMMON_ASSUMPTIONS + ["scaling coefficients read from a file are Python scalars (StructType.read returns struct.unpack results)"])
 
+prop("C08",
+     ["BL5", "BL6", "PO1", "WT1", "BL2"],
+     "Every clause is an agreement between a length field and the bytes behind it, i.e. between two expressions in the writer: string "
+     "length prefix, raw-data-index length per path (k == 4 + sum of field sizes), lead-in offsets (metadata_size + data size, measured on "
+     "the list that is written, written in order), declared data size vs written data (same object predicate, same string encoding, 4-byte "
+     "offsets), index twin (is_index_file influences only the tag and the raw-data guard; same objects/version; own stream), parents-first "
+     "ordering and written-state updated only after the writes, ToC flags.",
+     ["objects that do not follow the TdmsObject protocol (path, properties, data)"],
+     COMMON_ASSUMPTIONS)
+
 # ---------------------------------------------------------------------------
 # MANIFEST texts
 LEVEL_TEXT = {
@@ -92,7 +102,11 @@ LEVEL_TEXT["C13"] = ("Partial claim: purity (never modifies raw data), dispatch/
 LEVEL_TEXT["C14"] = ("Claim (structural): channel.dtype is computed symbolically while the data's dtype is whatever NumPy promotion produces; the "
                      "abstract dtype interpreter covers every raw type x scale class pair (the suite builds a few), and the empty-result, "
                      "receiver-table, byte-order and length-funnel rules cover the remaining clauses.")
+LEVEL_TEXT["C08"] = ("Claim (structural): length fields vs the bytes that follow are pairs of expressions in one module; the checker resolves "
+                     "both sides (type sizes from the type table, field lists per path) and compares them for every path, which an "
+                     "example-based comparison of serialised segments cannot do for arbitrary inputs.")
 TECHNIQUE = {
+    "C08": "static analysis: expression/size agreement per CFG path, influence set of is_index_file, dominance of state updates by the writes",
     "C14": "static analysis: abstract interpretation over a dtype lattice (NumPy as promotion oracle), table extraction and comparison, dataflow of dtype sources",
     "C02": "static analysis: alias/freshness dataflow, typestate abstract interpretation of the object list and has_data, control-dependence of raises",
     "C13": "static analysis: interprocedural alias and in-place effect analysis; dispatch and role-flow rules",
